@@ -18,6 +18,8 @@ def plan(ctx):
                           desc="lexer.t_error raises ParserError"))
     obs.append(Obligation("syntax.t_error.chars", "xh", "c16", "t_error_chars", timeout=T, bounds="18 concrete offending characters (controls, NBSP, ZWSP, lone surrogate, U+10FFFF, ...)",
                           desc="lexer.t_error raises ParserError whatever the offending character is"))
+    obs.append(Obligation("runtime.ast_names_budget", "xh", "c16", "ast_names_budget", timeout=T * 2, bounds="budget 1..30, host int symbolic",
+                          desc="ops limit reached while an ast_names definition is evaluated: ParserError (its subclass), never a non-Exception"))
     obs.append(Obligation("syntax.reserved", "xh", "c16", "reserved_word", timeout=T, bounds="keyword text <= 3 chars",
                           desc="reserved-word production raises ParserError"))
     for p in nodes.kind_params():
@@ -28,7 +30,7 @@ def plan(ctx):
     from sqv.harness import txt
     for i, prog in enumerate(txt.PROGRAMS):
         obs.append(Obligation(f"txt.only_parser_errors.p{i}", "xh", "txt", "error_line", param={"program": i, "class_only": True}, timeout=T * 6,
-                              bounds="one of 13 concrete programs; stray text from 12 samples (brackets, illegal characters, reserved word, unterminated quote, NUL) inserted at, "
+                              bounds="one of 16 concrete programs; stray text from 12 samples (brackets, illegal characters, reserved word, unterminated quote, NUL) inserted at, "
                                      "or the text truncated at, every token boundary, under LF / CRLF / ; variants (finite domain enumerated through the solver; real lexer+parser)",
                               desc=f"program {i} damaged at every token boundary: parse returns or raises ParserError, nothing else"))
     obs += lrc_obligations(ctx, ["consistency"], prefix="lrc.")
